@@ -6,6 +6,7 @@ pub mod c03;
 pub mod c04;
 pub mod c08;
 pub mod c09;
+pub mod c12;
 pub mod c13;
 pub mod c14;
 
@@ -15,6 +16,7 @@ pub fn run(cfg: &Cfg) -> Option<Report> {
         "C04" => c04::run(cfg),
         "C08" => c08::run(cfg),
         "C09" => c09::run(cfg),
+        "C12" => c12::run(cfg),
         "C13" => c13::run(cfg),
         "C14" => c14::run(cfg),
         _ => return None,
@@ -27,6 +29,7 @@ pub fn replay(cfg: &Cfg, case: &Value) -> Option<Report> {
         "C04" => c04::replay(cfg, case),
         "C08" => c08::replay(cfg, case),
         "C09" => c09::replay(cfg, case),
+        "C12" => c12::replay(cfg, case),
         "C13" => c13::replay(cfg, case),
         "C14" => c14::replay(cfg, case),
         _ => return None,
